@@ -8,6 +8,8 @@ package imapwire
 import (
 	"bufio"
 	"io"
+	"strconv"
+	"strings"
 
 	"github.com/emersion/go-imap/v2"
 )
@@ -102,16 +104,6 @@ var _ imap.UID // used by //@ func headers
 //@   modifies ptr
 //@   ensures !result ==> dec.err != nil
 //@   ensures result ==> *ptr >= 0
-
-// Number64 parses a non-empty run of decimal digits with strconv.ParseInt; that
-// the value of an all-digit string is non-negative is the assumed contract of
-// ParseInt (numberStr yields digits only).
-//
-//@ func (dec *Decoder) Number64(ptr *int64) (result bool)
-//@   trusted
-//@   modifies ptr
-//@   ensures result ==> *ptr >= 0
-//@   ensures old(dec.err) != nil ==> dec.err == old(dec.err)
 
 //@ func (dec *Decoder) ExpectModSeq(ptr *uint64) (result bool)
 //@   modifies ptr
@@ -281,12 +273,6 @@ func FlagGrammar(s string) bool {
 //@ func (dec *Decoder) Text(ptr *string) (result bool)
 //@   modifies ptr
 
-//@ func (dec *Decoder) Number(ptr *uint32) (result bool)
-//@   modifies ptr
-
-//@ func (dec *Decoder) ModSeq(ptr *uint64) (result bool)
-//@   modifies ptr
-
 //@ func (dec *Decoder) Quoted(ptr *string) (result bool)
 //@   modifies ptr
 
@@ -301,3 +287,60 @@ func FlagGrammar(s string) bool {
 //@   modifies ptr
 //@   ensures[C04] __called("CheckBufferedLiteralFunc") && __failed("CheckBufferedLiteralFunc") ==> !result && dec.err != nil
 
+
+var (
+	_ = strconv.Itoa
+	_ strings.Builder
+)
+
+// ---------------------------------------------------------------------------
+// C01: numbers. The encoder writes the plain decimal numeral; the decoder
+// reads a maximal run of digits and yields exactly the number it denotes,
+// refusing exactly the values that do not fit (so decode(encode(v)) == v for
+// every v, by the assumed strconv contract decval(decstr(v)) == v).
+
+//@ func (enc *Encoder) Number(v uint32) (result *Encoder)
+//@   props C01:callsite,post,pre@call
+//@   callsite Encoder.writeString(e *Encoder, str string) requires str == strconv.FormatUint(uint64(v), 10)
+//@   ensures __called("Encoder.writeString")
+
+//@ func (enc *Encoder) ModSeq(v uint64) (result *Encoder)
+//@   props C01:callsite,post,pre@call
+//@   callsite Encoder.writeString(e *Encoder, str string) requires str == strconv.FormatUint(v, 10)
+//@   ensures __called("Encoder.writeString")
+
+//@ func (enc *Encoder) Number64(v int64) (result *Encoder)
+//@   props C01:callsite,post,pre@call
+//@   callsite Encoder.writeString(e *Encoder, str string) requires v >= 0 ==> str == strconv.FormatUint(uint64(v), 10)
+//@   ensures __called("Encoder.writeString")
+
+// numberStr: the digits read so far are exactly what was accumulated; success
+// means a non-empty run of digits.
+//
+//@ func (dec *Decoder) numberStr() (s string, ok bool)
+//@   props C01:post,inv-init,inv-step,pre@call
+//@   ensures ok ==> __digits(s)
+//@   loop 0 locals (sb *strings.Builder)
+//@   loop 0 invariant sb.Len() == 0 || __digits(sb.String())
+
+//@ func (dec *Decoder) Number(ptr *uint32) (result bool)
+//@   props C01:post,pre@call
+//@   modifies ptr
+//@   requires ptr != nil
+//@   ensures result ==> __resultBool("Decoder.numberStr", 1) && uint64(*ptr) == __decval(__resultStr("Decoder.numberStr", 0))
+//@   ensures __resultBool("Decoder.numberStr", 1) && __decval(__resultStr("Decoder.numberStr", 0)) <= 0xFFFFFFFF ==> result
+//@   ensures !result ==> *ptr == old(*ptr)
+
+//@ func (dec *Decoder) ModSeq(ptr *uint64) (result bool)
+//@   props C01:post,pre@call
+//@   modifies ptr
+//@   requires ptr != nil
+//@   ensures result ==> __resultBool("Decoder.numberStr", 1) && *ptr == __decval(__resultStr("Decoder.numberStr", 0))
+//@   ensures __resultBool("Decoder.numberStr", 1) && __decval(__resultStr("Decoder.numberStr", 0)) <= 0xFFFFFFFFFFFFFFFF ==> result
+
+//@ func (dec *Decoder) Number64(ptr *int64) (result bool)
+//@   props C01:post,pre@call
+//@   modifies ptr
+//@   requires ptr != nil
+//@   ensures result ==> __resultBool("Decoder.numberStr", 1) && *ptr >= 0 && uint64(*ptr) == __decval(__resultStr("Decoder.numberStr", 0))
+//@   ensures __resultBool("Decoder.numberStr", 1) && __decval(__resultStr("Decoder.numberStr", 0)) <= 0x7FFFFFFFFFFFFFFF ==> result
